@@ -9,10 +9,13 @@
    ss.realises || n || A row-major || B || C || D || b … || a … || s   spec predicate `Realises` at s
    ss.resp || n m p || A || B || C || D || s || U … || x0 …            Y = C (sI−A)⁻¹ (B U + x0) + D U
    ss.det || n || A || s                                               det (sI − A)
+   ss.maker || line || line …                                          A, B, C, D of the StateSpaceMaker model
+   ss.singular || s || line || line …                                  is the Laplace-domain MNA matrix singular at s (natural frequency)
    Values are checked Gaussian rationals `p/q` or `p/q,r/t`.                                         -/
 import Lcapy.Model.Netlist
 import Lcapy.Model.Formulations
 import Lcapy.Model.Realisations
+import Lcapy.Model.StateSpaceMaker
 import Lcapy.Driver.C01
 namespace Lcapy.Driver.C15
 open Lcapy Lcapy.MNA Lcapy.Netlist Lcapy.Formulations Lcapy.StateSpace
@@ -78,6 +81,63 @@ def ssStr (sys : SS GQ) : String :=
 def ssOfLists (n : Nat) (A B C : List GQ) (D : GQ) : SS GQ :=
   { n := n, A := fun i j => A.getD (i * n + j) 0, B := fun i => B.getD i 0, C := fun j => C.getD j 0, D := D }
 
+/-! ### StateSpaceMaker -/
+
+def dedupIx (l : List Ix) : List Ix := l.foldl (fun acc i => if acc.contains i then acc else acc ++ [i]) []
+
+/-- the (untrusted) linear solver handed to `SSMaker.ssModel`: Gauss–Jordan over the indices that occur -/
+def gjSolver (cs : List (Cpt GQ)) : Ix → GQ :=
+  let st := stampAll .time 0 cs
+  let us := (dedupIx (st.lhs.map (fun e => e.1) ++ st.lhs.map (fun e => e.2.1) ++ st.rhs.map (fun e => e.1))).filter
+    (fun i => i != Ix.node 0)
+  let rows := us.map (fun r => us.map (fun c => entryA st r c) ++ [entryZ st r])
+  match gaussJordan us.length rows with
+  | none => fun _ => 0
+  | some rows =>
+    let sol := rows.map (fun row => row.getD us.length 0)
+    fun ix => match us.idxOf? ix with | some i => sol.getD i 0 | none => 0
+
+/-- why `cct.ss` refuses a netlist before / while building the model (mirrors the real code's error branches):
+    F, H, K lose their control / inductor names in `cct.sympify()` (syntax error); the MNA results hold no
+    current for a VCCS, which `cct.ss` asks for (KeyError) -/
+def ssRefusal (raw : List RawCpt) : Option String :=
+  if raw.any (fun c => c.ty = "F" || c.ty = "H" || c.ty = "K") then some "refused sympify-drops-names"
+  else if raw.any (fun c => c.ty = "G") then some "refused no-branch-current"
+  else if raw.any (fun c => !(["R", "C", "L", "V", "I", "E", "TF", "W"].contains c.ty)) then some "error unsupported-type"
+  else none
+
+def handleMaker (secs : List (List String)) : String := Id.run do
+  let lines := secs.map (fun l => " ".intercalate l)
+  match elaborate .dc lines with
+  | .error msg => s!"error {msg}"
+  | .ok e =>
+    match ssRefusal e.raw with
+    | some r => r
+    | none =>
+      let named := e.cpts
+      let cs := named.map (·.2)
+      match SSMaker.ssModel gjSolver cs with
+      | none => "refused singular"
+      | some M =>
+        let en := (List.range cs.length).zip named
+        let nameAt (p : Nat) : String := ((named.getD p ("?", Cpt.Open 0 0)).1)
+        let cptAt (p : Nat) : Cpt GQ := ((named.getD p ("?", Cpt.Open 0 0)).2)
+        let sp := SSMaker.statePos cs
+        let ip := SSMaker.inputPos cs
+        let stName (p : Nat) : String := (match cptAt p with | .Cap _ _ _ _ => "v_" | _ => "i_") ++ nameAt p
+        let rowOf (F : (Ix → GQ) → (Nat → GQ) → GQ) (L : List Nat) : List String := L.map (fun q => gq (SSMaker.entry F M q))
+        let A := sp.flatMap (fun p => rowOf (SSMaker.dotx M.base p (cptAt p)) sp)
+        let B := sp.flatMap (fun p => rowOf (SSMaker.dotx M.base p (cptAt p)) ip)
+        let nodes := (List.range (e.cls.length - 1)).map (· + 1)
+        let outs : List (String × ((Ix → GQ) → (Nat → GQ) → GQ)) :=
+          nodes.map (fun k => ("v_" ++ className e k, SSMaker.outV k)) ++
+          (en.filter (fun pc => SSMaker.hasCurrent pc.2.2 && !(match pc.2.2 with | .TF _ _ _ _ _ _ => true | _ => false))).map
+            (fun pc => ("i_" ++ pc.2.1, SSMaker.outI M.base pc.1 pc.2.2))
+        let C := outs.flatMap (fun o => rowOf o.2 sp)
+        let D := outs.flatMap (fun o => rowOf o.2 ip)
+        s!"ok || {" ".intercalate (sp.map stName)} || {" ".intercalate (ip.map nameAt)} || {" ".intercalate A} || " ++
+          s!"{" ".intercalate B} || {" ".intercalate (outs.map (·.1))} || {" ".intercalate C} || {" ".intercalate D}"
+
 def handleForm (cmd : String) (variant : List String) (secs : List (List String)) : String := Id.run do
   match secs with
   | anToks :: more =>
@@ -139,7 +199,24 @@ def handle (toks : List String) : Option String :=
     else if cmd.startsWith "ss." then some <| Id.run do
       match splitSep rest with
       | _ :: secs =>
-        if cmd = "ss.form" then
+        if cmd = "ss.maker" then handleMaker secs
+        else if cmd = "ss.singular" then
+          match secs with
+          | [sv] :: lineToks =>
+            match GQ.parse sv with
+            | none => "bad-op"
+            | some sp =>
+              match elaborate (.lap sp) (lineToks.map (fun l => " ".intercalate l)) with
+              | .error msg => s!"error {msg}"
+              | .ok e =>
+                let st := stampAll .lap sp (e.cpts.map (·.2))
+                let us := unknowns e
+                let rows := us.map (fun r => us.map (fun c => entryA st r c) ++ [(0 : GQ)])
+                match gaussJordan us.length rows with
+                | none => "singular"
+                | some _ => "regular"
+          | _ => "bad-op"
+        else if cmd = "ss.form" then
           match rest.head?, secs with
           | some form, [b, a] =>
             match parseList b, parseList a with
